@@ -426,7 +426,7 @@ pub fn gen_case(rng: &mut Rng, tier: &str, _profile: &str, stats: &mut Stats) ->
     let keepalive = rng.chance(1, 3);
     let mut long_budget = if rng.chance(3, 5) { 1 } else { 0 };
     let drain = rng.chance(1, 2);
-    let nops = if tier == "thorough" { rng.range(6, 18) } else { rng.range(6, 14) };
+    let nops = if tier == "thorough" { rng.range(6, 18) } else { rng.range(6, 14) } + if keepalive { 4 } else { 0 };
     stats.bump(&format!("gen.cap.{}", cap.map(|c| c.to_string()).unwrap_or_else(|| "none".into())));
     if keepalive {
         stats.bump("gen.keepalive");
